@@ -98,7 +98,7 @@ Inductive eop :=
 | EBotPlan (key now day len from to dout din : Z) (res : Z)  (* whenWillWeFly with the weights choosing [day] *)
 | ESubmitB (key : Z) (f : flightZ) (debit : bool) (accepted : bool)  (* one journey of submitFlights *)
 | ECheckOutbound (day : Z) (f : flightZ) (from to dist : Z)   (* the flight planTrip built for [day] *)
-| ECheckInbound (outf : flightZ) (len : Z) (inf : flightZ).   (* the return planInbound built *)
+| ECheckInbound (outf : flightZ) (len : Z) (inf : flightZ) (din : Z).   (* the return planInbound built; din = distance of the way back *)
 
 Definition perr_code (e : perr) : Z :=
   match e with
@@ -209,12 +209,12 @@ Definition e_step (s : rstate) (o : eop) : rstate * bool :=
       let sod := day * SecondsInDay in
       let dur := fend g - fstart g in
       (s, draw_ok (fstart g - sod) dur && flightZ_eqb f (flight_to (build_flight (N:=NumF) sod (fstart g - sod) dur from to (fl dist))))
-  | ECheckInbound outf len inf =>
+  | ECheckInbound outf len inf din =>
       let o := flight_of outf in let g := flight_of inf in
       let sod := inbound_day_start (mkJourney true o len) in
       let dur := fend g - fstart g in
       (s, draw_ok (fstart g - sod) dur &&
-          flightZ_eqb inf (flight_to (build_flight (N:=NumF) sod (fstart g - sod) dur (fto o) (ffrom o) (fdist g))))
+          flightZ_eqb inf (flight_to (build_flight (N:=NumF) sod (fstart g - sod) dur (fto o) (ffrom o) (fl din))))
   end.
 
 Fixpoint e_run (s : rstate) (k : nat) (ops : list eop) : list nat :=
